@@ -108,6 +108,10 @@ def tla_rec(r, exp=None, pred=None, pp=None):
         pp = pred["pp"]
     o["haspp"] = pp is not None
     o["pp"] = pp if pp is not None else {"k": "", "line": 0}
+    o["hasdisk"] = False
+    o["disk"] = {"exit": 0, "h": ""}
+    o["fmth"] = ""
+    o["origh"] = ""
     return o
 
 
@@ -177,8 +181,12 @@ def run(ctx):
     log("%s: %d distinct inputs (%s)" % (pid, len(items), ", ".join("%s=%d" % (s, sum(1 for i in items if i[3] == s)) for s in sorted({i[3] for i in items}))))
     raw = drive(ctx, driver, [i[0] for i in items])
     recs = [tla_rec(r, it[1], it[2]) for r, it in zip(raw, items)]
+    if pid == "C07":
+        fmt_on_disk(ctx, items, raw, recs)
     v = judge(ctx, recs)
     bad = v.get(rel, [])
+    if pid == "C07":
+        bad = bad + [i for i in v.get("FmtOnDisk_C07", []) if i not in set(bad)]
     drift = len(v.get("Drift_Toks", []))
     pdrift = len(v.get("Drift_Parse", []))
     if pdrift:
@@ -203,11 +211,17 @@ def run(ctx):
             continue
         shapes.add(shape)
         again = drive(ctx, driver, [b], procs=1)
-        v2 = judge(ctx, [tla_rec(again[0], exp, None)])
-        if not v2.get(rel):
+        rec2 = tla_rec(again[0], exp, None)
+        rel_i = rel
+        if pid == "C07" and i in set(v.get("FmtOnDisk_C07", [])) and i not in set(v.get(rel, [])):
+            rel_i = "FmtOnDisk_C07"
+            fmt_on_disk(ctx, [items[i]], again, [rec2])
+        v2 = judge(ctx, [rec2])
+        if not v2.get(rel_i):
             ctx.unreproduced = getattr(ctx, "unreproduced", 0) + 1
             continue
-        vlib.report(ctx, "%s:%s" % (rel, shape), "%s fails on %d-byte input %r (%s): %s" % (rel, len(b), b[:120], src, describe(pid, again[0])),
+        vlib.report(ctx, "%s:%s" % (rel_i, shape), "%s fails on %d-byte input %r (%s): %s" % (rel_i, len(b), b[:120], src,
+                    describe(pid, again[0]) if rel_i == rel else "after `spok --fmt` (exit %s) the file on disk is not the formatter's output" % rec2["disk"]["exit"]),
                     {"property": pid, "family": "syntax", "relation": rel, "input_hex": b.hex(), "input": b.decode("utf8", "replace"),
                      "expected_tree": exp, "observed": slim(again[0])})
         reported += 1
@@ -240,6 +254,40 @@ def run(ctx):
                     "a parse not returning within 3 s is a hang"])
 
 
+def fmt_on_disk(ctx, items, raw, recs):
+    """C07's last sentence: `spok --fmt` overwrites the user's file in place.  A sample of the inputs that parse is written to a
+    sandbox project, formatted with the built binary (as nobody), and the bytes left on disk are recorded next to the library result."""
+    import hashlib
+    import fam_cli
+    cand = []
+    for i, (it, r) in enumerate(zip(items, raw)):
+        if r["outcome"] != "ok" or not r["p1"]["ok"] or it[3] not in ("syntax-rand", "syntax-exh", "loose", "repo"):
+            continue
+        try:
+            it[0].decode("utf8")
+        except UnicodeDecodeError:
+            continue
+        if b"@HOME@" in it[0] or b"@LOG@" in it[0]:
+            continue
+        cand.append(i)
+    rnd = random.Random(ctx.seed + 3)
+    special = [i for i in cand if b"%" in items[i][0] or b"\\" in items[i][0]]
+    rnd.shuffle(cand)
+    n = 300 if ctx.tier == "quick" else 3000
+    pick = list(dict.fromkeys(special[: n // 2] + cand[:n]))[:n]
+    scen = [{"id": k + 1, "files": [{"p": "proj/", "dir": True}, {"p": "proj/spokfile", "c": items[i][0].decode("utf8")}],
+             "steps": [{"cwd": "proj", "argv": ["--fmt"], "env": {}}]} for k, i in enumerate(pick)]
+    out = fam_cli.drive(ctx, scen, "fmt")
+    for i, o in zip(pick, out):
+        st = o["steps"][0]
+        h = [e["h"] for e in st["after"] if e["p"] == ["proj", "spokfile"]]
+        recs[i]["hasdisk"] = True
+        recs[i]["disk"] = {"exit": st["exit"], "h": h[0] if h else "missing"}
+        recs[i]["fmth"] = hashlib.sha256(bytes.fromhex(raw[i]["fmt"])).hexdigest()
+        recs[i]["origh"] = hashlib.sha256(items[i][0]).hexdigest()
+    log("C07: %d parsed inputs also formatted in place with `spok --fmt` (binary, as nobody)" % len(pick))
+
+
 def shape_of(pid, r, b):
     if r["outcome"] != "ok":
         return r["outcome"]
@@ -249,7 +297,7 @@ def shape_of(pid, r, b):
     if pid in ("C16",):
         return "%s/%d" % (r["lexend"], len(r["toks"]))
     if pid in ("C07",):
-        return "reparse-fails" if not r["p2"]["ok"] else "semantics"
+        return "reparse-fails" if not r["p2"]["ok"] else ("semantics" + ("-pct" if b"%" in b else ""))
     if pid == "C06":
         return "crlf" if b"\r\n" in b else ("noparse" if not r["p1"]["ok"] else "tree")
     return "x%d" % (len(b) // 8)
